@@ -24,6 +24,7 @@ type Explorer struct {
 	Rep      *explore.Report
 	S        Setting
 	Deadline time.Time
+	Workers  int // 0 = all cores
 	capped   bool
 
 	bfs      *explore.BFS[*node]
@@ -72,7 +73,7 @@ func (e *Explorer) check(hist []Step, w *World, res Result) bool {
 }
 
 func (e *Explorer) Run() {
-	b := &explore.BFS[*node]{MaxStates: 4000000, Deadline: e.Deadline, KeyOf: func(n *node) explore.Key { return explore.HashKey([]byte(n.key)) }}
+	b := &explore.BFS[*node]{Workers: e.Workers, MaxStates: 4000000, Deadline: e.Deadline, KeyOf: func(n *node) explore.Key { return explore.HashKey([]byte(n.key)) }}
 	e.bfs = b
 	w0 := NewWorld(e.S)
 	init := &node{key: w0.Key()}
